@@ -11,7 +11,18 @@ Layer 3: the harness built with -race runs every listed function from many gorou
 import json, os, re, subprocess, time
 
 
+def _pure_callees(chk):
+    src = open(os.path.join(chk.LEAN, "LowProofs", "Props", "C19Gen.lean")).read()
+    m = re.search(r"def pureCallees : List String := \[(.*?)\]", src, flags=re.S)
+    return set(re.findall(r'"([^"]*)"', m.group(1))) if m else set()
+
+
+PURE = set()
+
+
 def regenerate(chk):
+    global PURE
+    PURE = _pure_callees(chk)
     """layer 2: rebuild the effect table from /repo; returns (ok, message, summary)"""
     tool = os.path.join(chk.ROOT, "tools", "effects")
     out = os.path.join(chk.LEAN, "Generated", "Effects.lean")
@@ -34,12 +45,14 @@ def regenerate(chk):
 
 def suspicious(recs):
     """the records the theorems C19_effects_ok / C19_calls_ok will reject (for the replay file)"""
-    effects = recs.get("effects", recs) if isinstance(recs, dict) else recs
+    effects = recs.get("records", []) if isinstance(recs, dict) else recs
     bad = []
     for e in effects:
         if e.get("initOnly"):
             continue
         if e.get("root") in ("param", "global", "unknown"):
+            bad.append(e)
+        elif e.get("root") == "-" and e.get("callee") not in PURE:
             bad.append(e)
     return bad
 
